@@ -460,6 +460,13 @@ impl BudgetEnforcer {
         }
     }
 
+    /// The alias just observed is about to be replayed: its replayed node will be observed as
+    /// well and takes the alias' place as a mapping key or value, so the position the alias
+    /// event itself consumed in the enclosing mapping is given back.
+    pub(crate) fn alias_replay_starts(&mut self) {
+        self.handle_alias();
+    }
+
     fn entering_container(&mut self) -> bool {
         if let Some(ContainerState::Mapping { expecting_key, .. }) = self.containers.last_mut() {
             if *expecting_key {
